@@ -495,6 +495,12 @@ class Emitter:
             bt = b["type"].get("desugaredQualType") or b["type"]["qualType"]
             lines.append("    %s;" % self.decl(bt, "_base"))
         nfields = 0
+        has_virtual = any(c.get("kind") in ("CXXMethodDecl", "CXXDestructorDecl") and c.get("virtual") for c in rec.get("inner", []) or [])
+        if has_virtual and not bases:
+            # polymorphic class without a polymorphic base: the vptr is the first member in the Itanium ABI; kept so that
+            # the C struct has the layout of the real object (it is never read by the extracted code: no virtual calls)
+            lines.append("    void *_vptr;")
+            nfields += 1
         for c in rec.get("inner", []) or []:
             k = c.get("kind")
             if k == "FieldDecl":
@@ -508,7 +514,7 @@ class Emitter:
                     d += " : %s" % w
                 lines.append("    %s;" % d)
                 nfields += 1
-            elif k in ("CXXMethodDecl", "CXXDestructorDecl") and c.get("virtual"):
+            elif k == "CXXMethodDecl" and c.get("virtual"):
                 if not self.allow_virtual(n):
                     raise Unsupported("virtual function in " + n)
             elif k == "CXXDestructorDecl":
